@@ -116,6 +116,29 @@ func (w *World) comparisonUnits(h *ssa.Function, left, right ssa.Value) []*cmpUn
 			if ridx < 0 && res.Len() == 1 && okidx == 0 {
 				ridx, okidx = 0, -1 // a helper that answers with a plain bool
 			}
+			if ridx < 0 && res.Len() == 2 {
+				// (answer, handled), both plain bools: "handled" is the one the caller branches on
+				b0, ok0 := res.At(0).Type().Underlying().(*types.Basic)
+				b1, ok1 := res.At(1).Type().Underlying().(*types.Basic)
+				if ok0 && ok1 && b0.Kind() == types.Bool && b1.Kind() == types.Bool {
+					branched := map[int]bool{}
+					for _, rr := range referrers(c) {
+						if ex, ok := rr.(*ssa.Extract); ok {
+							for _, r2 := range referrers(ex) {
+								if _, isIf := r2.(*ssa.If); isIf {
+									branched[ex.Index] = true
+								}
+							}
+						}
+					}
+					switch {
+					case branched[1] && !branched[0]:
+						ridx, okidx = 0, 1
+					case branched[0] && !branched[1]:
+						ridx, okidx = 1, 0
+					}
+				}
+			}
 			if ridx < 0 {
 				return
 			}
@@ -285,7 +308,12 @@ func (w *World) operandComparisons(h *ssa.Function, left, right ssa.Value) []ope
 			guards := typeGuards(in.Block(), left, right)
 			if g != h {
 				// a comparison inside a function literal: what is known where the literal is handed to its helper
-				if site := closureUseSite(g); site != nil {
+				// (and, for a literal inside a literal, where that one is)
+				for lit, d := g, 0; lit != h && lit.Parent() != nil && d < 4; lit, d = lit.Parent(), d+1 {
+					site := closureUseSite(lit)
+					if site == nil {
+						break
+					}
 					guards = strings.TrimSpace(guards + " " + typeGuards(site.Block(), left, right))
 				}
 			}
@@ -544,7 +572,7 @@ func (w *World) existentialShape(c operandCmp, r *Roles) (bool, string) {
 				stored := false
 				var flows func(v ssa.Value, d int)
 				flows = func(v ssa.Value, d int) {
-					if d > 5 {
+					if d > 8 {
 						return
 					}
 					for _, rr := range referrers(v) {
@@ -556,6 +584,15 @@ func (w *World) existentialShape(c operandCmp, r *Roles) (bool, string) {
 						case *ssa.Store:
 							if fa, ok := x.Addr.(*ssa.FieldAddr); ok && fa.Field == r.CtxResultField {
 								stored = true
+							}
+						case *ssa.Return:
+							// the answer over the inner node-set is what the predicate of an outer existential helper
+							// returns (node-set x node-set): follow that helper's answer
+							outer := x.Parent()
+							if outer.Parent() != nil && len(x.Results) == 1 && x.Results[0] == v {
+								if s2 := closureUseSite(outer); s2 != nil && existentialHelper(staticCallee(s2)) {
+									flows(s2, d+1)
+								}
 							}
 						}
 					}
